@@ -53,15 +53,14 @@ def run(ctx):
     path = os.path.join(out, "c14.ndjson")
     lines = read_ndjson(path)
 
-    def keyfn(ln):
+    def keyfn(ln, cur, idx):
         # which scenario does the line belong to, and what was expected next
-        idx = lines.index(ln)
         s = idx
-        while s > 0 and lines[s].get("op") != "new":
+        while s > 0 and cur[s].get("op") != "new":
             s -= 1
-        sc = lines[s]
-        oks = [x for x in lines[s:idx] if x["op"] == "send" and x["err"] == ""]
-        nrec = len([x for x in lines[s:idx] if x["op"] == "recv" and x["err"] == ""])
+        sc = cur[s]
+        oks = [x for x in cur[s:idx] if x["op"] == "send" and x["err"] == ""]
+        nrec = len([x for x in cur[s:idx] if x["op"] == "recv" and x["err"] == ""])
         exp = oks[nrec] if nrec < len(oks) else None
         if sc["scenario"] in ("sendDeadline", "recvDeadline"):
             return "chunk:%s-inside-message" % sc["scenario"]
